@@ -43,6 +43,9 @@ def base_event(op, data, out, before):
 
 
 def make_data(rng, n, ncols, frame, classes=(0.0, 1.0, 2.0)):
+    if classes == (0.0, 1.0, 2.0) and rng.random() < 0.3:
+        # class labels that are large and close to each other (period codes, ids): distinct labels are distinct classes
+        classes = rng.choice([(202401.0, 202402.0, 202403.0), (1000000.0, 1000001.0, 1000002.0)])
     a = np.array([[float(rng.randint(-5, 9)) for _ in range(ncols - 1)] + [rng.choice(classes)] for _ in range(n)], dtype=float).reshape(n, ncols)
     names = ["f%d" % i for i in range(ncols - 1)] + ["y"]
     if frame:
@@ -104,12 +107,14 @@ def call(rng, kind, n, ncols, frame, window=None, seed=0, pool=None):
         e = base_event(kind, data, out, before)
         e.update(c1=c1, c2=c2)
     elif kind == "labelswap":
-        k1, k2 = rng.choice([0.0, 1.0, 2.0, 5.0]), rng.choice([0.0, 1.0, 2.0])
+        pres = sorted(set(np.asarray(data.drop(columns=NOTE) if isinstance(data, pd.DataFrame) and NOTE in data.columns else data, dtype=float)[:, ycol - 1].tolist()))
+        k1, k2 = rng.choice(pres + [pres[-1] + 3.0]), rng.choice(pres)          # (sometimes a class that does not occur)
         out = I.LabelSwapInjector()(data, f, t, colarg(frame, names, ycol), k1, k2)
         e = base_event(kind, data, out, before)
         e.update(c1=ycol, k1=num(k1), k2=num(k2))
     elif kind == "labeljoin":
-        k1, k2, kn = rng.choice([0.0, 1.0, 2.0]), rng.choice([0.0, 1.0, 2.0]), rng.choice([0.0, 1.0, 7.0])
+        pres = sorted(set(np.asarray(data.drop(columns=NOTE) if isinstance(data, pd.DataFrame) and NOTE in data.columns else data, dtype=float)[:, ycol - 1].tolist()))
+        k1, k2, kn = rng.choice(pres), rng.choice(pres), rng.choice([pres[0], pres[-1], pres[-1] + 7.0])
         out = I.LabelJoinInjector()(data, f, t, colarg(frame, names, ycol), k1, k2, kn)
         e = base_event(kind, data, out, before)
         e.update(c1=ycol, k1=num(k1), k2=num(k2), knew=num(kn))
